@@ -144,7 +144,8 @@ def ensure_coq_built(ctx, timeout=1500):
 def coqc(ctx, path, timeout=600, extra_args=()):
     """Compile one file (outside the make tree) against the built development."""
     out = ctx.rundir / (Path(path).stem + ".vo")
-    cmd = ["timeout", str(timeout), "coqc", "-R", str(COQ), "PV"] + list(extra_args) + ["-o", str(out), str(path)]
+    cmd = ["bash", "-c", "ulimit -s unlimited 2>/dev/null; exec timeout %d coqc -R %s PV %s -o %s %s" % (
+        timeout, COQ, " ".join(extra_args), out, path)]
     r = subprocess.run(cmd, stdout=subprocess.PIPE, stderr=subprocess.PIPE, text=True, cwd=ctx.rundir)
     return r.returncode, r.stdout, r.stderr
 
